@@ -1137,9 +1137,8 @@ func init() {
 	// directed material for individual properties
 	families["directed"] = func(c *ctx) {
 		directedStaged(c)
+		directedOverlap(c)
 		switch c.prop {
-		case "C02", "C10", "C17", "C13":
-			directedOverlap(c)
 		case "C01", "C05", "C06":
 			directedComments(c)
 		}
